@@ -43,6 +43,15 @@ func (v *FnVC) calleeName(c *ssa.CallCommon) (name string, fn *ssa.Function) {
 	if f := c.StaticCallee(); f != nil {
 		return v.W.FuncQualName(f), f
 	}
+	// call through a function-typed struct field: contract "(pkg.T).field$field" (assumed for every value stored there)
+	if ld, ok := c.Value.(*ssa.UnOp); ok && ld.Op == token.MUL {
+		if fa, ok := ld.X.(*ssa.FieldAddr); ok {
+			st := deref(fa.X.Type())
+			if s, ok := structOf(st); ok {
+				return fmt.Sprintf("(%s).%s$field", qualifiedTypeName(types.Unalias(st)), s.Field(fa.Field).Name()), nil
+			}
+		}
+	}
 	return "", nil
 }
 
@@ -110,6 +119,23 @@ func (v *FnVC) encodeCall(ins ssa.Instruction, c *ssa.CallCommon, res ssa.Value)
 	if name != "" {
 		contract = v.W.ContractFor(name)
 	}
+	// Interior pointers (address of a struct field, of a slice element, of a non-escaping local) passed to the
+	// callee: the callee sees an object at that address. Materialise the current value there before the call
+	// and copy it back afterwards, so that the callee's contract speaks about the caller's storage.
+	type mat struct {
+		loc  *Loc
+		view *Loc
+	}
+	var mats []mat
+	for _, a := range args {
+		l, ok := v.ptrs[a]
+		if !ok || l.Kind == LObj || (l.Kind == LCell && len(l.Path) == 0) {
+			continue
+		}
+		view := v.locFromPtr(v.ptrTerm(l), l.T)
+		v.store(v.cur, view, v.load(v.cur, l))
+		mats = append(mats, mat{l, view})
+	}
 	v.checkCallAsserts(ins, name, fn, contract, sig, argTerms)
 	results := make([]Term, sig.Results().Len())
 	if contract != nil {
@@ -121,15 +147,10 @@ func (v *FnVC) encodeCall(ins ssa.Instruction, c *ssa.CallCommon, res ssa.Value)
 			v.assumeFreshBound(results[k], v.cur)
 		}
 	}
-	// interior / local pointers handed to a callee: the enclosing storage is havocked afterwards (the callee's
-	// effect on it is not tracked through the contract)
-	for _, a := range args {
-		if l, ok := v.ptrs[a]; ok && (l.Kind == LLocal || len(l.Path) > 0) {
-			if contract != nil && len(contract.Modifies) == 0 && !contract.ModifiesAll {
-				continue // contract says the callee modifies nothing
-			}
-			v.havocAt(l, v.cur)
-		}
+	// interior / local pointers handed to a callee: copy the callee's view (object at the pointer's address) back
+	// into the enclosing storage
+	for _, m := range mats {
+		v.store(v.cur, m.loc, v.load(v.cur, m.view))
 	}
 	v.bindResults(res, results)
 }
@@ -166,7 +187,11 @@ func (v *FnVC) paramNames(contract *FuncContract, fn *ssa.Function, sig *types.S
 		return names
 	}
 	if invoke || sig.Recv() != nil {
-		names = append(names, "recv")
+		rn := "recv"
+		if sig.Recv() != nil && sig.Recv().Name() != "" && sig.Recv().Name() != "_" {
+			rn = sig.Recv().Name()
+		}
+		names = append(names, rn)
 	}
 	for k := 0; k < sig.Params().Len(); k++ {
 		n := sig.Params().At(k).Name()
@@ -716,6 +741,9 @@ func (v *FnVC) encodeBuiltin(ins ssa.Instruction, b *ssa.Builtin, c *ssa.CallCom
 		x := v.val(c.Args[0])
 		if x.Sort == "Slice" {
 			v.setVal(res, fmt.Sprintf("(scap %s)", x.S))
+		} else if _, isChan := c.Args[0].Type().Underlying().(*types.Chan); isChan {
+			v.S.declFun("chan_cap", "(Int) Int")
+			v.setVal(res, fmt.Sprintf("(ite (= %s 0) 0 (chan_cap %s))", x.S, x.S))
 		} else {
 			v.vals[res] = v.havocVal("cap", res.Type())
 		}
@@ -899,6 +927,10 @@ func (v *FnVC) atExit() {
 		cov.IsCover = true
 	}
 	for k, c := range v.C.Ensures {
+		if c.Kind == "trusted-ensures" {
+			v.assumedCallees[fmt.Sprintf("%s: postcondition assumed at call sites, NOT proved for the body: %s", v.fnName(), c.Text)] = true
+			continue
+		}
 		if c.Kind == "defines" {
 			// names the function's result by uninterpreted spec functions: assumed at call sites (purity assumption), nothing to check here
 			v.assumedCallees[fmt.Sprintf("%s is a pure function of its arguments (defines: %s)", v.fnName(), c.Text)] = true
